@@ -304,17 +304,21 @@ def run(ctx):
 
     # ---- model checking of the cursor machine
     model = {}
-    r = tlc(ctx, "FrontEnd", "FrontEnd_cursor4" if tier == "quick" else "FrontEnd_cursor5", timeout=3000)
+    # length <= 4 over all classes: Progress, Variant and the liveness property Terminates
+    r = tlc(ctx, "FrontEnd", "FrontEnd_cursor4", timeout=3000)
     if r.violated:
         raise InfraError("FrontEnd cursor machine: %s violated with no deviation switch:\n%s" % (r.violated, "\n".join(r.trace)[-1500:]))
     model["cursor"] = dict(states=r.distinct, transitions=r.generated)
     states, trans = r.distinct, r.generated
     if tier == "thorough":
-        r = tlc(ctx, "FrontEnd", "FrontEnd_cursor8", timeout=3000)
-        if r.violated:
-            raise InfraError("FrontEnd cursor machine (length 8): %s violated" % r.violated)
-        states += r.distinct
-        trans += r.generated
+        # longer strings: the two action properties (Variant is the termination argument itself)
+        for cfg in ("FrontEnd_cursor5", "FrontEnd_cursor8"):
+            r = tlc(ctx, "FrontEnd", cfg, timeout=3000, extra=("-maxSetSize", "10000000"))
+            if r.violated:
+                raise InfraError("FrontEnd cursor machine (%s): %s violated" % (cfg, r.violated))
+            model[cfg] = dict(states=r.distinct, transitions=r.generated)
+            states += r.distinct
+            trans += r.generated
     r = tlc(ctx, "FrontEnd", "FrontEnd_cursor_f11", timeout=600)
     if r.violated != "Progress":
         raise InfraError("the deviation PREFIX_ARGS_NO_PROGRESS was expected to violate Progress; TLC says %r" % r.violated)
@@ -324,7 +328,8 @@ def run(ctx):
     # ---- inputs
     items = []
     r = tlc(ctx, "FrontEnd", "FrontEnd_enum4" if (tier == "quick" and hooked) else
-            "FrontEnd_enum5" if tier == "thorough" and hooked else "FrontEnd_enum3", timeout=3000)
+            "FrontEnd_enum5" if tier == "thorough" and hooked else "FrontEnd_enum3", timeout=3000,
+            extra=("-maxSetSize", "10000000"))
     enum_items = concretise_enum(r.records)
     seen = set()
     for it in enum_items:
@@ -410,7 +415,8 @@ def run(ctx):
             sample = idxs[:3] if f else idxs[:40]
             conf = []
             for i in sample:
-                c = real.run(items[i][0], sanitize=False, limit_s=8)
+                # fuel verdicts name a loop that provably spins; verdicts from a resource limit get 100x more time
+                c = real.run(items[i][0], sanitize=False, limit_s=60 if loop.endswith("-limit") else 8)
                 conf.append(c["kind"])
                 if c["kind"] in ("timeout", "signal"):
                     confirmed += 1
